@@ -35,7 +35,7 @@ class CFG(object):
         self.pred = {}
         self.entry = self.new("entry")
         self.exit = self.new("exit")  # normal return
-        self.rexit = self.new("raise")  # exceptional exit (Python)
+        self.rexit = self.new("rexit")  # exceptional exit (Python)
 
     def new(self, kind, ast_node=None, label="", line=None):
         n = N(len(self.nodes), kind, ast_node, label, line)
